@@ -100,12 +100,17 @@ def bounds(facts):
             else:
                 out.append(ob("fi.bounds", key, fn["pat"], "violated", "returns %s, expected %s (upper - lower must equal the maximum error)" % (rets, want[fn["name"]][0]), fn["qname"]))
         if fn["name"] == "get_estimate":
-            inl = {d: v["init"] for d, v in local_decls(fn).items() if v.get("init") is not None}
-            rets = [txt(r["e"], inl) for r in returns_of(fn)]
-            conds = []
-            walk(fn["body"], lambda n: conds.append(txt(n["c"], inl)) if n.get("k") == "If" else None)
+            import semantics
+            from astu import single_assignment_locals
+            inl = single_assignment_locals(fn)
+            cases = semantics.return_cases(fn, inl)
+            rets = [v for c, v in cases]
+            conds = [c for c, v in cases]
             key = "frequent_items_sketch::get_estimate:formula"
-            if sorted(rets) == sorted(["(map.get(item)+offset)", "0"]) and conds in ([C("(map.get(item)>0)")], [C("(map.get(item)!=0)")]):
+            pos = [C("(map.get(item)>0)"), C("(map.get(item)!=0)")]
+            neg = [C("(map.get(item)<=0)"), C("(map.get(item)==0)")]
+            ok_cases = len(cases) == 2 and any(c == [p] and v == C("(map.get(item)+offset)") for c, v in cases for p in pos) and any(c == [q] and v == "0" for c, v in cases for q in neg)
+            if ok_cases:
                 out.append(ob("fi.bounds", key, fn["pat"], "discharged", "weight > 0 ? weight + offset : 0", fn["qname"]))
             else:
                 out.append(ob("fi.bounds", key, fn["pat"], "violated", "estimate is %s under %s, expected weight + offset when tracked and 0 otherwise" % (rets, conds), fn["qname"]))
